@@ -224,6 +224,9 @@ fn init() -> &'static Ctx {
 fuzz_target!(|data: &[u8]| {
     let ctx = init();
     let k = EXECS.fetch_add(1, Ordering::Relaxed);
+    if k % 16384 == 16383 {
+        write_stats(); // a killed process (watchdog) still leaves its counts behind
+    }
     fuzzhook::begin(k < 512 || k % 64 == 0);
     if let Some((ei, _, _)) = fuzzops::decode(Some(&ctx.prop), data) {
         if let Ok(mut p) = PER_ENTRY.lock() {
